@@ -1,4 +1,21 @@
-From TT Require Import Base.Verdict Trackaddict.Model Run.Ta_run.
+From Coq Require Import List ZArith.
+From TT Require Import Base.Outcome Base.Str Base.Verdict Trackaddict.Columns Trackaddict.Model Run.Ta_run.
+Import ListNotations.
 Definition case := Ta_run.case.
 Definition mkCase := Ta_run.mkCase.
-Definition check_case := Ta_run.check.
+(* C02 gives lap i the number of marker i; the lap still open at the end of the log has no marker
+   and its number is not fixed: a session that differs from the model's only there still meets
+   the property (S). *)
+Definition unnumber_last (o : obs) : obs :=
+  match rev (ob_laps o) with
+  | l :: r => mkObs (rev (mkLap (lap_dur l) 0 (lap_recs l) :: r)) (ob_meta o) (ob_vehicle o) (ob_endpoint o)
+  | [] => o
+  end.
+Definition check_case (c : case) : verdict :=
+  match Ta_run.check c with
+  | VV => match c_class c, decode (s_of_bytes (c_text c)) with
+          | 0%nat, Ok s => if zlist_eqb (tok_obs (unnumber_last (obs_of_session s))) (tok_obs (unnumber_last (c_obs c))) then VS else VV
+          | _, _ => VV
+          end
+  | v => v
+  end.
